@@ -448,7 +448,8 @@ func (b *UnsafeLinkBuffer) MallocAck(n int) (err error) {
 	b.write = b.flush
 
 	var l int
-	for ack := n; ack > 0; ack = ack - l {
+	// ack >= 0: MallocAck(0) must also truncate the pending bytes of the boundary node
+	for ack := n; ack >= 0; ack = ack - l {
 		l = b.write.malloc - len(b.write.buf)
 		if l >= ack {
 			b.write.malloc = ack + len(b.write.buf)
